@@ -221,7 +221,11 @@ type caseT struct {
 	RedactSub string   `json:",omitempty"` // additionally: every path containing this substring
 	Pkg       bool     // use the package-level functions (default validator) instead of a Validator value
 	ViaApp    bool     `json:",omitempty"` // partial mode through app.Context.Bind(WithPartial) on a PATCH request
-	Auto      bool     // StrategyAuto instead of StrategyTags
+	// Variant: 1 = the options are given to validation.New (base configuration of a fresh Validator), the call
+	// passes none of them; 2 = as 1, and the call overrides a different base WithMaxErrors;
+	// 3 = partial mode through Validate(WithPartial(true), WithPresence(pm)) instead of ValidatePartial
+	Variant int  `json:",omitempty"`
+	Auto    bool // StrategyAuto instead of StrategyTags
 }
 
 // ---------------------------------------------------------------- generators
@@ -559,6 +563,12 @@ func genCase(r *hx.Rand, tier string) caseT {
 	}
 	c.Pkg = r.Chance(1, 4)
 	c.ViaApp = c.Mode == 0 && r.Chance(1, 4)
+	if !c.ViaApp && r.Chance(1, 6) {
+		c.Variant = r.Range(1, 3)
+		if c.Variant == 3 && c.Mode != 0 {
+			c.Variant = 1
+		}
+	}
 	c.Auto = r.Chance(1, 2)
 	// redactor: a random subset of the paths that occur, sometimes a substring rule
 	if r.Chance(2, 3) {
@@ -1055,6 +1065,26 @@ func observe(c *caseT, rt reflect.Type, secrets []string) (o obsT) {
 			if !ran {
 				o.other = "app: handler did not run"
 			}
+		case c.Variant == 1 || c.Variant == 2:
+			// options in the Validator's base configuration (cloned for every call that passes options)
+			base, call := opts, []validation.Option(nil)
+			if c.Variant == 2 {
+				base = append([]validation.Option{}, opts...)
+				base = append(base, validation.WithMaxErrors(c.MaxErrors+1))
+				call = []validation.Option{validation.WithMaxErrors(c.MaxErrors)}
+			}
+			vv, nerr := validation.New(base...)
+			if nerr != nil {
+				o.other = "New: " + nerr.Error()
+				return
+			}
+			if c.Mode == 0 {
+				verr = vv.ValidatePartial(ctx, ptr.Interface(), pm, call...)
+			} else {
+				verr = vv.Validate(ctx, ptr.Interface(), call...)
+			}
+		case c.Mode == 0 && c.Variant == 3:
+			verr = sharedValidator.Validate(ctx, ptr.Interface(), append([]validation.Option{validation.WithPartial(true), validation.WithPresence(pm)}, opts...)...)
 		case c.Mode == 0 && c.Pkg:
 			verr = validation.ValidatePartial(ctx, ptr.Interface(), pm, opts...)
 		case c.Mode == 0:
@@ -1346,6 +1376,9 @@ func emit(id string, c caseT, st *hx.Stats) string {
 		st.Count("obs_" + o.kind)
 		if c.ViaApp {
 			st.Count("via_app_context_bind")
+		}
+		if c.Variant != 0 {
+			st.Count("variant_" + []string{"", "base_options", "base_options_overridden", "validate_with_partial_option"}[c.Variant])
 		}
 		if low {
 			st.Count("low_sibling_next_to_nested")
